@@ -1,4 +1,5 @@
 import GMProofs.Lemmas.GroCrashL
+import GMProofs.Lemmas.GroExtraL
 /-
   C14 — Incomplete or truncated .gro output is never accepted as a valid system.
 
@@ -149,6 +150,42 @@ theorem close_last_step_is_prefix (title count lattice : List Nat) (lines : List
     show (groPre title count lines).length + lattice.length = (groPre title count lines ++ lattice).length by simp,
     List.take_left]
 
+/-- **A session closed before any record leaves an EMPTY file, and the reader rejects it.**
+    For every list of setters (title, box, position format, declared count) followed by `close()`:
+    nothing at all has been written — so `GroFile(path)` raises (`IOError`: empty first line) whatever the
+    parsers are; and when no count was declared ("Closing an empty file") no operation raises and the file
+    object is closed. (With a declared count `close()` raises — `IOError` for a count ≠ 0, `ValueError` for 0 —
+    and the file is just as empty.) -/
+theorem empty_close_writes_nothing (P : Parsers) (setters : List Op) (hset : ∀ op ∈ setters, IsSetter op) :
+    let res := run WState.init (setters ++ [Op.close])
+    res.1.bytes = [] ∧
+    loadAndVerify P res.1.bytes = .error .ioError ∧
+    (∀ d, groRead P res.1.bytes ≠ .ok d) ∧
+    ((∀ op ∈ setters, ∀ n, op ≠ Op.setNatoms n) → (∀ e ∈ res.2, e = none) ∧ res.1.closed = true) := by
+  intro res
+  obtain ⟨hp, he⟩ := pristine_run setters pristine_init hset
+  have hres : res = ((step (run WState.init setters).1 .close).1,
+      (run WState.init setters).2 ++ [(step (run WState.init setters).1 .close).2]) := by
+    show run WState.init _ = _
+    rw [run_append]; simp [run]
+  have hb : res.1.bytes = [] := by rw [hres]; exact close_pristine_bytes hp
+  have hlv : loadAndVerify P [] = .error .ioError := by
+    simp [loadAndVerify, readLine, takeLine, bind, Except.bind, throw, throwThe, MonadExceptOf.throw]
+  refine ⟨hb, by rw [hb]; exact hlv, ?_, ?_⟩
+  · intro d hd
+    rw [hb] at hd
+    simp [groRead, hlv, bind, Except.bind] at hd
+  · intro hn
+    have hnat : (run WState.init setters).1.natoms = none := by
+      rw [run_setters_natoms setters hset hn]; rfl
+    rw [hres, close_pristine_undeclared hp hnat]
+    refine ⟨?_, rfl⟩
+    intro e hm
+    simp only [List.mem_append, List.mem_cons, List.not_mem_nil, or_false] at hm
+    rcases hm with hm | hm
+    · exact he e hm
+    · exact hm
+
 /-! ### non-vacuity -/
 
 section examples
@@ -180,6 +217,22 @@ example : boxOffset titleEx countEx linesEx.length 38 = 86 ∧
     ((groRead stdParsers (fileEx.take 90)).toOption.map (·.recs.length)) = some 2 ∧
     (groRead stdParsers fileEx).toBool = true := by
   refine ⟨by decide, by decide, by decide, by decide, by decide⟩
+
+/-- `empty_close_writes_nothing`: setter lists with and without a declared count -/
+example : (∀ op ∈ [Op.setComment [84], Op.setPosFmt 9 4, Op.setBox (.vec .zero .zero .zero)], IsSetter op) ∧
+    (∀ op ∈ [Op.setComment [84], Op.setPosFmt 9 4, Op.setBox (.vec .zero .zero .zero)], ∀ n, op ≠ Op.setNatoms n) ∧
+    (∀ op ∈ [Op.setNatoms 0], IsSetter op) ∧
+    (run WState.init ([Op.setNatoms 0] ++ [Op.close])).2 = [none, some .valueError] := by
+  refine ⟨?_, ?_, ?_, by decide⟩
+  · intro op h
+    simp only [List.mem_cons, List.not_mem_nil, or_false] at h
+    rcases h with h | h | h <;> subst h <;> simp [IsSetter]
+  · intro op h n
+    simp only [List.mem_cons, List.not_mem_nil, or_false] at h
+    rcases h with h | h | h <;> subst h <;> simp
+  · intro op h
+    simp only [List.mem_cons, List.not_mem_nil, or_false] at h
+    subst h; simp [IsSetter]
 
 /-- `CrashParsers` is satisfiable (count back-filled, two records) -/
 example : CrashParsers stdParsers WState.init 2 := crashParsers_std _ _ (by show 2 < 10 ^ 9; decide)
